@@ -147,7 +147,25 @@ def _gen_cut_by_eof(rng, tier):
                "sched": {"seed": rng.randrange(1 << 30)}, "horizon": 100.0}
 
 
+def _gen_early_answer(rng, tier):
+    """The application answers while the request body is still incomplete and the client does not send the rest: request and response are
+    not both complete, so the connection cannot be reused - the response has to say so (connection: close) and the server closes after it."""
+    for i in range(30 if tier == "quick" else 600):
+        tag = 5900000 + i
+        how = rng.choice(["cl", "chunked"])
+        if how == "cl":
+            head = b"POST /t%d HTTP/1.1\r\nHost: h\r\nContent-Length: %d\r\n\r\n" % (tag, rng.choice([10, 100000])) + b"x" * rng.choice([0, 4])
+        else:
+            head = b"POST /t%d HTTP/1.1\r\nHost: h\r\nTransfer-Encoding: chunked\r\n\r\n" % tag + rng.choice([b"", b"3\r\nabc\r\n"])
+        by_tag = {str(tag): _app(rng, tag, rng.choice(["never", "before"]))}
+        yield {"family": "early-answer-incomplete-body." + how, "backends": ["asyncio", "trio"], "config": {"keep_alive_timeout": 5000}, "conn": {},
+               "apps": {"default": [["recv_until_end"], ["respond", 200, [], b"d"]], "by_tag": by_tag},
+               "client": [["feed", head], ["settle"], ["advance", 1.0], ["settle"]],
+               "truth": {"kind": "early-answer", "tag": tag}, "sched": {"seed": rng.randrange(1 << 30)}, "horizon": 100.0}
+
+
 def gen(rng, tier):
+    yield from _gen_early_answer(rng, tier)
     yield from _gen_aborted(rng, tier)
     yield from _gen_malformed(rng, tier)
     yield from _gen_cut_by_eof(rng, tier)
@@ -204,7 +222,7 @@ def nontrivial(case, obs):
     t = case["truth"]
     if t.get("kind") == "aborted":
         return any(e[2] == "net" and e[3] == "write_error" for e in obs.trace.events)
-    if t.get("kind") == "malformed":
+    if t.get("kind") in ("malformed", "early-answer"):
         return True
     return len(t["requests"]) > 1 or t["maxreq"] == 1 or any(wants_close(r) or r["version"] == "1.0" for r in t["requests"])
 
@@ -241,6 +259,26 @@ def check(case, obs, tally):
         if later or len(done) > bad + 1:
             out.append({"clause": "malformed-announces-close", "sig": "C06.malformed/request-behind-processed",
                         "detail": "the request pipelined behind the malformed one was processed"})
+        return out
+    if t.get("kind") == "early-answer":
+        tally.clause("must-close")
+        try:
+            resps, _ = h1.parse_responses(obs.outbytes, [("POST", "1.1")], obs.closed_at is not None)
+        except h1.Malformed as e:
+            out.append({"clause": "must-close", "sig": "C06.early-answer/unparseable-output", "detail": str(e)})
+            return out
+        r = resps[0] if resps else None
+        if r is None or not r.complete or r.status != 200:
+            tally.inconclusive["early-answer-not-delivered"] += 1
+            return out
+        toks = [x.strip().lower() for v in r.header(b"connection") for x in v.split(b",")]
+        if obs.closed_at is not None and b"close" not in toks:
+            out.append({"clause": "must-close", "sig": "C06.close-not-announced/early-answer", "detail":
+                        "the application answered while the request body was incomplete; the server closed the connection after the response without "
+                        "having announced it (response headers %r)" % (r.headers,)})
+        elif obs.closed_at is None:
+            out.append({"clause": "must-close", "sig": "C06.not-closed-after-must-close/early-answer",
+                        "detail": "request body incomplete, response complete, connection still open at quiescence"})
         return out
     if t.get("kind") == "aborted":
         lost = next((e for e in obs.trace.events if e[2] == "net" and e[3] == "write_error"), None)
